@@ -54,6 +54,8 @@ M('C03', 'cached-link-hash-unchecked', 'mithril-client/src/certificate_client/ve
   'if certificate.hash != hash {', 'if certificate.hash.is_empty() {', ['client:cached-link-hash'], 'the certificate served for a cached link is not compared with the requested hash (F12 reintroduced)')
 M('C03', 'cached-link-hash-wrong-operand', 'mithril-client/src/certificate_client/verify.rs',
   'if certificate.hash != hash {', 'if certificate.hash != certificate.hash.clone() {', ['client:cached-link-hash'], 'the served hash is compared with itself')
+M('C07', 'kes-clamp-past-last-period', COMMON + 'crypto_helper/cardano/kes/verifier_standard.rs',
+  'std::cmp::min(63, kes_evolutions.saturating_add(1))', 'std::cmp::min(64, kes_evolutions.saturating_add(1))', ['kes:last-period'], 'F13 reintroduced: evolution 64 aliases the last period')
 
 # ---------------------------------------------------------------- C02
 CLERK = STM + 'proof_system/concatenation/clerk.rs'
